@@ -94,9 +94,11 @@ func (c *wsConn) tryDelete(s *Subscription) {
 	for rid, ref := range refs {
 		switch ref.state {
 		case gcStateDelete:
+			verifCount("gc.delete")
 			ref.sub.Dispose()
 			delete(c.subs, rid)
 		case gcStateUnsend:
+			verifCount("gc.unsend")
 			ref.sub.Unsend()
 		}
 	}
